@@ -547,6 +547,28 @@ func init() {
 			emit(hx(s))
 		}
 	}
+	// letchain: every let uses the previous binding twice, so the substituted SQL doubles per statement.
+	// Each case is a pair: the program with k lets and the same program with one more.
+	families["letchain"] = func(r *rng, n int, emit emitFn) {
+		shapes := []string{"%s + %s", "%s * %s", "strcat(%s, %s)", "iff(%s > 0, %s, 0)", "(%s) - %s"}
+		uses := []string{"T | where x == %s", "T | extend y = %s", "T | take 1 | project z = %s", "T | join (U) on $left.k == %s"}
+		for i := 0; i < n; i++ {
+			shape := shapes[i%len(shapes)]
+			use := uses[(i/len(shapes))%len(uses)]
+			k := 10 + r.intn(5)
+			build := func(k int) string {
+				var sb strings.Builder
+				sb.WriteString("let a0 = 1;\n")
+				for j := 1; j <= k; j++ {
+					prev := fmt.Sprintf("a%d", j-1)
+					fmt.Fprintf(&sb, "let a%d = "+shape+";\n", j, prev, prev)
+				}
+				fmt.Fprintf(&sb, use, fmt.Sprintf("a%d", k))
+				return sb.String()
+			}
+			emit(hx(build(k)), hx(build(k+1)))
+		}
+	}
 	families["eof"] = func(r *rng, n int, emit emitFn) {
 		// programs whose last token is incomplete, or complete but directly followed by a closer
 		heads := []string{"T | where a > ", "T | take ", "T | extend x = a + ", "let n = ", "T | where f(a, ", "T | project b, c = ", "T | where (x > ", "T | sort by "}
